@@ -42,7 +42,7 @@ class Runner:
             self.local.f = fa.FakeAtlas(self.sc)
         return self.local.f
 
-    def run(self, on, idx, strace=False):
+    def run(self, on, idx, strace=False, stdin_kind="pipe"):
         on = set(on)
         d = tempfile.mkdtemp(prefix="c18-%d-" % idx, dir=self.root)
         tmp = os.path.join(d, "tmp")
@@ -84,11 +84,25 @@ class Runner:
         st = os.path.join(d, "strace.log")
         if strace:
             cmd = ["strace", "-f", "-qq", "-o", st, "-e", "trace=openat,connect,read,exit_group"] + cmd
+        sin = None
         try:
-            p = subprocess.run(cmd, cwd=d, env=e, capture_output=True, timeout=120,
-                               **({"input": self.data} if "stdin" in on else {"stdin": subprocess.DEVNULL}))
+            if "stdin" in on and stdin_kind == "file":
+                sp = os.path.join(tmp, "..", "stdin.log")
+                with open(sp, "wb") as sf:
+                    sf.write(self.data)
+                before.add("stdin.log")
+                sin = open(sp, "rb")
+                kw = {"stdin": sin}
+            elif "stdin" in on:
+                kw = {"input": self.data}
+            else:
+                kw = {"stdin": subprocess.DEVNULL}
+            p = subprocess.run(cmd, cwd=d, env=e, capture_output=True, timeout=120, **kw)
         except subprocess.TimeoutExpired:
             raise common.Infra("CLI timed out on switches %s" % sorted(on))
+        finally:
+            if sin:
+                sin.close()
         after = set(os.listdir(d))
         new = sorted(after - before - {"strace.log"})
         changed = []
@@ -98,7 +112,7 @@ class Runner:
                     changed.append(n)
             except OSError:
                 changed.append(n)
-        obs = {"on": sorted(on), "args": args, "rc": p.returncode, "stderr": p.stderr.decode("utf-8", "replace"), "stdout": p.stdout,
+        obs = {"on": sorted(on), "args": args, "stdin_kind": stdin_kind if "stdin" in on else "/dev/null", "rc": p.returncode, "stderr": p.stderr.decode("utf-8", "replace"), "stdout": p.stdout,
                "new_files": new, "changed_files": changed, "tmp_left": sorted(os.listdir(tmp)),
                "connects": [c.get("target") or c.get("line") for c in f.connects[c0:]], "requests": len(f.log) - l0}
         out_file = None
@@ -147,7 +161,7 @@ def judge(v, obs, rl, expected_out, preexisting):
     on = set(obs["on"])
     rep = {k: (x if not isinstance(x, bytes) else x.decode("utf-8", "replace")[:1500]) for k, x in obs.items() if k != "events"}
     rep["rule"] = rl
-    sig_sw = "+".join(obs["on"]) or "(none)"
+    sig_sw = ("+".join(obs["on"]) or "(none)") + (" [stdin < file]" if obs.get("stdin_kind") == "file" else "")
     rejected = obs["rc"] != 0
     atlas_src = "proj" in on and "cluster" in on
     if rl == "reject" and not rejected:
@@ -199,6 +213,10 @@ def run(tier):
     if len(recs) != 8192:
         raise common.Infra("expected 8192 terminal states of Cli, got %d" % len(recs))
     # vacuity guard: every rejecting check and both accepting paths are exercised by the model
+    # the composition Cli -> KeyFile -> Stream (spec/Run.tla): cross-module invariants of one non-Atlas run
+    trun = common.run_tlc("Run", "Run.cfg", timeout=900, want_records=False)
+    if not trun.ok:
+        raise common.Infra("TLC on the composition Run.tla failed: %s\n%s" % (trun.violation, trun.out[-1200:]))
     reasons = set(r["reason"] for r in recs)
     if len(reasons) < 12:
         raise common.Infra("vacuous model: only %d rejection reasons reached" % len(reasons))
@@ -220,7 +238,16 @@ def run(tier):
 
         def one(i):
             return i, R.run(recs[i]["on"], i, strace=(i in st))
-        for i, obs in common.parallel_map(one, order):
+
+        # "piped stdin" also means `< file`: the combinations with stdin again, with stdin redirected from a regular file
+        with_stdin = [i for i in order if "stdin" in recs[i]["on"]]
+        if tier == "quick":
+            with_stdin = [i for i in with_stdin if recs[i]["rule"] != "reject"] + rng.sample([i for i in with_stdin if recs[i]["rule"] == "reject"], 1200)
+
+        def one_file(i):
+            return i, R.run(recs[i]["on"], 100000 + i, stdin_kind="file")
+        results = common.parallel_map(one, order) + common.parallel_map(one_file, with_stdin)
+        for i, obs in results:
             rec = recs[i]
             v.count()
             rl = rule(set(rec["on"]))
@@ -244,7 +271,7 @@ def run(tier):
     for ti, ei, ev, why in rej:
         v.spec_drift({"trace_of_switches": owners[ti], "rejected_at_event": ei, "event": ev, "trace": traces[ti]})
     shutil.rmtree(root, ignore_errors=True)
-    v.cov.update({"states": t.distinct + tstates, "transitions": t.generated, "traces_validated_against_impl": acc, "traces_rejected": len(rej),
+    v.cov.update({"composition_states_Run_tla": trun.distinct, "states": t.distinct + tstates, "transitions": t.generated, "traces_validated_against_impl": acc, "traces_rejected": len(rej),
                   "exhaustive": True, "switch_combinations_replayed": len(recs) * len(passes), "straced_runs": n_strace,
                   "rule_rows": {"reject": sum(1 for r in recs if r["rule"] == "reject"), "either": sum(1 for r in recs if r["rule"] == "either"),
                                 "accept": sum(1 for r in recs if r["rule"] == "accept")},
